@@ -260,7 +260,9 @@ fn rand_case(rng: &mut Rng, s: &str) -> String {
 }
 
 fn rand_value(rng: &mut Rng, short: bool) -> String {
-    const ALPH: &[&str] = &["a", "b", "Z", "0", "9", " ", "\t", ":", ",", ";", "=", "/", "?", "é", "€", "😀", "\"", "%", "*", "-", "."];
+    // U+00A0, U+3000, U+2028, U+0085 are white space to Unicode, not to HTTP: they are ordinary value characters
+    const ALPH: &[&str] = &["a", "b", "Z", "0", "9", " ", "\t", ":", ",", ";", "=", "/", "?", "é", "€", "😀", "\"", "%", "*", "-", ".",
+                            "\u{a0}", "\u{3000}", "\u{2028}", "\u{85}"];
     let n0 = rng.below(24);
     // now and then a LONG field line: lengths around the usual buffer and limit sizes (4 KiB, 8 KiB, 16 KiB, 64 KiB)
     if !short && rng.chance(1, 48) {
@@ -269,14 +271,15 @@ fn rand_value(rng: &mut Rng, short: bool) -> String {
         while s.len() < target {
             if rng.chance(1, 64) { s.push_str(*rng.pick(ALPH)); } else { s.push('a'); }
         }
-        return s.trim().to_string();
+        return s.trim_start().trim_end_matches(|c| c == ' ' || c == '\t').to_string();
     }
     let n = n0;
     let mut s = String::new();
     for _ in 0..n {
         s.push_str(*rng.pick(ALPH));
     }
-    s.trim().to_string()
+    // the parser drops leading white space in Rust's (Unicode) sense; at the end only SP / HTAB are outside the quantifier
+    s.trim_start().trim_end_matches(|c| c == ' ' || c == '\t').to_string()
 }
 
 pub fn gen_request(rng: &mut Rng, big_body: bool) -> GenReq {
